@@ -38,6 +38,11 @@ add("C06", "model_checking", "History.tla specifies the store at call granularit
     "operation sequences generated by TLC simulation of that model and by a seeded generator are executed on the real jsondb with 8 awkward name tables and close start stamps, and after EVERY operation every query answer for every DAG is compared by TLC with the model (HistoryTrace)",
     REC_NOTE + "; status payloads are opaque ids", "TLA+ model of the history store (TLC) + TLC-generated and random operation sequences replayed on the real jsondb, every answer validated against the model by TLC", "hist", "5/C06")
 
+add("C07", "fault_enumeration", "a child process executing history operations on the real jsondb is SIGKILLed by a ptrace supervisor at the entry of every mutating system call under the data directory and at three torn prefixes of every write; "
+    "a fresh process asks all queries; TLC judges every record: the answers must fit one of the legal states between 'acknowledged operations applied' and 'operation in flight applied too' (CrashObserve, History semantics); "
+    "HistoryFS.tla models the same code at system-call grain with Crash enabled everywhere and TLC checks the C07 invariants on it",
+    "trusted: the ptrace supervisor (global syscall order over all threads), TLC, the driver; process crash not power loss; every kill point of the listed scenarios, not every scenario", "ptrace kill-point enumeration on the real store + TLA+ syscall-grain model (TLC) + records judged by TLC", "crash", "5/C07")
+
 ALL = ["C%02d" % i for i in range(1, 21)]
 for p in ALL:
     if p not in CHECKS:
@@ -64,6 +69,8 @@ def main():
              "kind_free_text": "request renderer around the real middleware chain (httptest); records judged by TLC"},
             {"name": "hist", "path": "harness/rig/hist.go + spec/History.tla + spec/MCHistory.tla + spec/HistoryTrace.tla", "serves_properties": ["C06"],
              "kind_free_text": "operation-sequence driver around the real jsondb store; trace validation by TLC"},
+            {"name": "crash", "path": "harness/rig/sup.go + harness/rig/crash.go + spec/HistoryFS.tla + spec/CrashObserve.tla", "serves_properties": ["C07"],
+             "kind_free_text": "ptrace supervisor (kill at k-th system call, torn writes) around a history driver; records judged by TLC"},
             {"name": "admit", "path": "harness/rig/admit.go + spec/Admission.tla + spec/AdmissionObserve.tla", "serves_properties": ["C14"],
              "kind_free_text": "graph enumerator around scheduler.NewExecutionGraph / agent.Run; records judged by TLC"},
         ],
